@@ -56,6 +56,11 @@ def rpc_call(ctx, args, kwargs):
 rpc_call.modifies = ["method"]
 
 
+def lock_acquire(ctx):
+    """`async with lock` may suspend before the lock is held: the same interference as at any other await"""
+    rpc_call(ctx, [], {})
+
+
 def is_error(ctx, args, kwargs):
     return ctx.fresh("is_error", "bool")
 
@@ -99,7 +104,7 @@ save_method = Contract(
     raises={"AggregatorCallerException": None, "AggregatorInternalException": None, "Exception": None},
     exc_ensures={"AggregatorCallerException": []},
     on_exit=on_exit,
-    options={"lenient": True, "protected_prefixes": ()})
+    options={"lenient": True, "protected_prefixes": (), "on_lock_acquire": lock_acquire})
 # rejected when not based on the current version: proved as `must raise`
 save_method.options["raises_iff_partial"] = True
 
